@@ -143,6 +143,10 @@ def _apply_torch_equiv(g, prog, op):
         for leaf, h in zip(inputs, had):
             if leaf.grad is None and not h:
                 leaf.grad = torch.zeros_like(leaf)
+            elif not h:
+                # torch may hand the SAME buffer to two leaves it creates a .grad for (e.g. both operands of an add); a
+                # .grad created by torchjd shares memory with nothing (C06), so the twin's new fields are un-aliased too
+                leaf.grad = leaf.grad.clone()
         return
     feats = [g.get(f) for f in prog["features"]]
     cots = [torch.zeros_like(f) for f in feats]
